@@ -23,5 +23,9 @@ func init() {
 			doc: "with statement entry: __exit__ is looked up and pushed, __enter__ is looked up and called, and only after it returned without error is the finally block pushed and the result pushed — an exception from __enter__ must not run __exit__ [ceval.c SETUP_WITH]"},
 		{key: "compile|Instructions.EndsWithReturn", prop: "C12", rule: "C12.R7", show: []string{"*"},
 			doc: "the implicit `return None` is omitted only when the very last element of the instruction stream is a RETURN_VALUE: a trailing label is a jump target that needs an instruction after it"},
+		{key: "parser|yyLex.ErrorReturn", prop: "C20", rule: "C20.R3", show: []string{"*"}, prim: []string{"py.ExceptionNewf"},
+			doc: "incomplete-input decision (lexer half): a parse error without a message of its own is reported as 'unexpected EOF while parsing' exactly when the input ran out (x.eof), otherwise as 'invalid syntax' — the REPL continues a statement on the former"},
+		{key: "py|Type.Lookup", prop: "C16", rule: "C16.R4", show: []string{"*"},
+			doc: "MRO lookup: every call walks the current MRO of the type and returns the first dictionary hit; nothing is memoised across calls (a cache would need invalidation in every subclass)"},
 	}
 }
